@@ -107,6 +107,9 @@ ViewH == ViewOf(TRUE)
 \* on the part of the state space where the invariants hold
 View == ViewOf(FALSE)
 
+\* live facets: the initial state must satisfy the assumptions (otherwise LiveNext has no step and the check is vacuous)
+Calm == calm
+
 \* the facets must not be vacuous: these are expected to be VIOLATED when checked (used by hand)
 SomeSubmission == nsub = 0
 SomeSecondRound == \A s \in Sig : vp[s].st = "none" \/ vp[s].ts < 110
@@ -145,7 +148,6 @@ ParSet60 == {[cool |-> 30, disc |-> 60, grace |-> 30, tries |-> 1, P |-> 2, L |-
 FeedInit60 == {[s \in Sig |-> [iv |-> 60, dev |-> 50]]}
 Quotes60 == [s \in Sig |-> {[st |-> "avail", price |-> 10000], [st |-> "avail", price |-> 10050], [st |-> "unavail", price |-> 0]}]
 ParFault2 == {[cool |-> 2, disc |-> 3, grace |-> 3, tries |-> 3, P |-> 1, L |-> 1, D |-> 1]}
-ParSet20D0 == {[cool |-> 10, disc |-> 20, grace |-> 10, tries |-> 1, P |-> 1, L |-> 1, D |-> 0]}
 QuotesQ == [s \in Sig |-> IF s = "s1" THEN {[st |-> "avail", price |-> 10000], [st |-> "avail", price |-> 10050]}
                                      ELSE {[st |-> "avail", price |-> 10000]}]
 =============================================================================
